@@ -1,7 +1,7 @@
 (** No input makes the lexer panic (C06): the slice and index operations of the cursor are always in range.
     [Base] is the invariant of the cursor between operations; [Fresh] holds right after a rune was read and says
     that this rune can be given back ([backup]) or dropped ([drop_width]). *)
-From GV Require Import Compiler.Lexer Proofs.Utf8Proofs Proofs.LexProofs.
+From GV Require Import Compiler.Lexer Proofs.Utf8Proofs Proofs.LexProofs Proofs.LexCursorInv.
 From Coq Require Import Lia ZArith.
 Open Scope N_scope.
 
@@ -18,7 +18,6 @@ Definition Fresh (l : lexst) : Prop :=
   | [] => False
   end.
 
-Definition Quiet (l : lexst) : Prop := l_width l = 0%nat.
 
 Lemma nl_app a b : nl (a ++ b) = (nl a + nl b)%nat.
 Proof. unfold nl. induction a as [|x a IH]; [reflexivity|]. cbn [app count_byte]. rewrite IH. destruct (N.eqb 10 x); lia. Qed.
@@ -108,15 +107,6 @@ Proof.
   unfold Base, with_s. cbn [l_panic l_pos l_s]. pose proof (nl_skipn (l_width l) (l_s l)). split; [exact Hpanic|split; [exact Hpos|lia]].
 Qed.
 
-(** * the helpers keep the cursor in range *)
-Lemma Base_fq l : Base l -> Base (snd (next l)) /\ (Fresh (snd (next l)) \/ Quiet (snd (next l))).
-Proof. intro H. destruct (next_spec l H) as [HB Hf]. split; [exact HB|]. destruct (fst (next l)); [left|right]; exact Hf. Qed.
-
-Lemma peek_base l : Base l -> Base (snd (peek l)).
-Proof.
-  intro H. unfold peek. destruct (Base_fq l H) as [HB Hf]. destruct (next l) as [r l1]. cbn [snd] in *. apply backup_spec; assumption.
-Qed.
-
 Lemma peek_ahead_base n l : Base l -> Base (snd (peek_ahead n l)).
 Proof. intros (A & B & C). unfold peek_ahead, Base, with_reader. cbn [snd l_panic l_pos l_s]. auto. Qed.
 
@@ -126,52 +116,9 @@ Proof.
   unfold ignore, Base, with_s. cbn [l_panic l_pos l_s]. rewrite Hp in *. split; [exact A|split; [exact B|cbn; lia]].
 Qed.
 
-Lemma skip_base l : Base l -> Base (snd (skip l)).
-Proof.
-  intro H. unfold skip. destruct (Base_fq l H) as [HB Hf]. destruct (next l) as [r l1]. cbn [snd] in *. apply drop_width_spec; assumption.
-Qed.
-
-Lemma accept_run_aux_base fuel valid : forall l, Base l -> Base (accept_run_aux fuel valid l).
-Proof.
-  induction fuel as [|x f IH]; intros l H; cbn [accept_run_aux]; destruct (Base_fq l H) as [HB Hf]; destruct (next l) as [r l1]; cbn [snd] in *;
-    destruct (in_set valid r); try exact HB; try (apply IH; exact HB); apply backup_spec; assumption.
-Qed.
-Lemma accept_run_base valid l : Base l -> Base (accept_run valid l).
-Proof. apply accept_run_aux_base. Qed.
-
-Lemma accept_until_aux_base fuel inv : forall l, Base l -> Base (accept_until_aux fuel inv l).
-Proof.
-  induction fuel as [|x f IH]; intros l H; cbn [accept_until_aux]; destruct (Base_fq l H) as [HB Hf]; destruct (next l) as [r l1]; cbn [snd] in *;
-    destruct r as [c|]; try (apply backup_spec; assumption);
-    destruct (in_set inv (Some c)); try exact HB; try (apply IH; exact HB); apply backup_spec; assumption.
-Qed.
-Lemma accept_until_base inv l : Base l -> Base (accept_until inv l).
-Proof. apply accept_until_aux_base. Qed.
-
-Lemma skip_run_aux_base fuel set : forall l, Base l -> Base (skip_run_aux fuel set l).
-Proof.
-  induction fuel as [|x f IH]; intros l H; cbn [skip_run_aux]; destruct (Base_fq l H) as [HB Hf]; destruct (next l) as [r l1]; cbn [snd] in *;
-    destruct (in_set set r); try (apply backup_spec; assumption); try (apply IH); apply drop_width_spec; assumption.
-Qed.
-Lemma skip_run_base set l : Base l -> Base (skip_run set l).
-Proof. apply skip_run_aux_base. Qed.
-
-Lemma skip_until_aux_base fuel stop : forall l, Base l -> Base (skip_until_aux fuel stop l).
-Proof.
-  induction fuel as [|x f IH]; intros l H; cbn [skip_until_aux]; destruct (Base_fq l H) as [HB Hf]; destruct (next l) as [r l1]; cbn [snd] in *;
-    destruct r as [c|]; try (apply backup_spec; assumption);
-    destruct (in_set stop (Some c)); try (apply backup_spec; assumption); try (apply IH); apply drop_width_spec; assumption.
-Qed.
-Lemma skip_until_base stop l : Base l -> Base (skip_until stop l).
-Proof. apply skip_until_aux_base. Qed.
-
-Lemma next_n_base n : forall l, Base l -> Base (next_n n l).
-Proof. induction n as [|k IH]; intros l H; [exact H|]. cbn [next_n]. apply IH. apply (Base_fq l H). Qed.
-Lemma skip_ahead_base n l : Base l -> Base (skip_ahead n l).
-Proof. intro H. unfold skip_ahead. apply ignore_base. apply next_n_base. exact H. Qed.
-
 Lemma with_indent_base l i : Base l -> Base (with_indent l i).
 Proof. exact (fun H => H). Qed.
+
 Lemma with_out_base l o : Base l -> Base (with_out l o).
 Proof. exact (fun H => H). Qed.
 
@@ -194,98 +141,8 @@ Proof.
   cbn [snd]. exact H.
 Qed.
 
-Lemma to_quote_aux_base fuel q : forall esc l, Base l ->
-  Base (snd (to_quote_aux fuel q esc l)) /\ (Fresh (snd (to_quote_aux fuel q esc l)) \/ Quiet (snd (to_quote_aux fuel q esc l))).
-Proof.
-  induction fuel as [|x f IH]; intros esc l H; cbn [to_quote_aux]; destruct (Base_fq l H) as [HB Hf]; destruct (next l) as [r l1]; cbn [snd] in *;
-    destruct r as [c|]; cbn [snd]; try (split; assumption);
-    destruct (N.eqb c q && negb esc); cbn [snd]; try (split; assumption); apply IH; exact HB.
-Qed.
-
-Lemma to_brace_aux_base fuel e : forall esc inq qs l, Base l ->
-  Base (snd (to_brace_aux fuel e esc inq qs l)) /\ (Fresh (snd (to_brace_aux fuel e esc inq qs l)) \/ Quiet (snd (to_brace_aux fuel e esc inq qs l))).
-Proof.
-  induction fuel as [|x f IH]; intros esc inq qs l H; cbn [to_brace_aux]; destruct (Base_fq l H) as [HB Hf]; destruct (next l) as [r l1]; cbn [snd] in *;
-    destruct r as [c|]; cbn [snd]; try (split; assumption);
-    repeat match goal with |- context [if ?b then _ else _] => destruct b end; cbn [snd]; try (split; assumption); apply IH; exact HB.
-Qed.
-Lemma brace_base e l : Base l ->
-  Base (snd (continue_to_matching_brace e l)) /\ (Fresh (snd (continue_to_matching_brace e l)) \/ Quiet (snd (continue_to_matching_brace e l))).
-Proof. apply to_brace_aux_base. Qed.
-
-Lemma quote_base typ cap l : Base l -> Base (snd (continue_to_matching_quote typ cap l)).
-Proof.
-  intro H. unfold continue_to_matching_quote. pose proof (peek_base l H) as Hp. destruct (peek l) as [q l0]. cbn [snd] in Hp.
-  destruct q as [qc|]; cbn [snd]; [|exact Hp]. destruct (N.eqb qc 96 || N.eqb qc 34); cbn [snd]; [|exact Hp].
-  set (l1 := if cap then snd (next l0) else snd (skip l0)).
-  assert (H1 : Base l1) by (subst l1; destruct cap; [apply (Base_fq l0 Hp)|apply skip_base; exact Hp]).
-  destruct (to_quote_aux_base (l_after l1) qc false l1 H1) as [H2 Hf2].
-  destruct (to_quote_aux (l_after l1) qc false l1) as [r l2]. cbn [snd] in *.
-  destruct r; cbn [snd]; [|exact H2]. destruct cap; cbn [snd].
-  - apply emit_base. exact H2.
-  - apply skip_base. apply emit_base. apply backup_spec; assumption.
-Qed.
-
-Lemma haml_identifier_base typ l : Base l -> Base (snd (haml_identifier typ l)).
-Proof.
-  intro H. unfold haml_identifier.
-  assert (H2 : Base (accept_until c_mayFollowIdentifier (snd (skip l)))) by (apply accept_until_base; apply skip_base; exact H).
-  destruct (current _); [apply errorf_base|cbn [snd]; apply emit_base]; exact H2.
-Qed.
-
-Lemma goht_start_loop_base fuel : forall l, Base l -> Base (snd (goht_start_loop fuel l)).
-Proof.
-  induction fuel as [|x f IH]; intros l H; cbn [goht_start_loop];
-    pose proof (accept_until_base (lit ")") l H) as H1;
-    (destruct (Nat.eqb _ _); [cbn [snd]; exact H1|]);
-    destruct (Base_fq _ H1) as [H2 _]; destruct (next (accept_until (lit ")") l)) as [r l2]; cbn [snd] in *;
-    destruct r; cbn [snd]; try exact H2; apply IH; exact H2.
-Qed.
-
-Lemma next_base l : Base l -> Base (snd (next l)).
-Proof. intro H. apply (Base_fq l H). Qed.
-Lemma brace_base1 e l : Base l -> Base (snd (continue_to_matching_brace e l)).
-Proof. intro H. apply (brace_base e l H). Qed.
-Lemma backup_fq l : Base l -> Fresh l \/ Quiet l -> Base (backup l).
-Proof. apply backup_spec. Qed.
-
-Create HintDb lbase.
-Global Hint Resolve peek_base peek_ahead_base ignore_base skip_base accept_run_base accept_until_base skip_run_base
-  skip_until_base skip_ahead_base with_indent_base with_out_base emit_base errorf_base quote_base haml_identifier_base
-  goht_start_loop_base next_base brace_base1 backup_fq : lbase.
-
-Ltac bs := eauto 14 with lbase.
-
-Ltac pairb f x :=
-  let H := fresh "Hb" in assert (H : Base (snd (f x))) by bs; destruct (f x) as [? ?]; cbn [snd] in H.
-
-Ltac safe_case :=
-  repeat first
-  [ match goal with
-    | |- context [match peek ?x with _ => _ end] => pairb peek x
-    | |- context [match next ?x with _ => _ end] =>
-        let H := fresh "Hb" in let H' := fresh "Hf" in
-        assert (H : Base (snd (next x)) /\ (Fresh (snd (next x)) \/ Quiet (snd (next x)))) by (apply Base_fq; bs);
-        destruct (next x) as [? ?]; cbn [snd] in H; destruct H as [H H']
-    | |- context [match skip ?x with _ => _ end] => pairb skip x
-    | |- context [match peek_ahead ?n ?x with _ => _ end] => pairb (peek_ahead n) x
-    | |- context [match continue_to_matching_brace ?e ?x with _ => _ end] =>
-        let H := fresh "Hb" in let H' := fresh "Hf" in
-        assert (H : Base (snd (continue_to_matching_brace e x)) /\ (Fresh (snd (continue_to_matching_brace e x)) \/ Quiet (snd (continue_to_matching_brace e x)))) by (apply brace_base; bs);
-        destruct (continue_to_matching_brace e x) as [? ?]; cbn [snd] in H; destruct H as [H H']
-    | |- context [match goht_start_loop ?f ?x with _ => _ end] => pairb (goht_start_loop f) x
-    | |- context [match continue_to_matching_quote ?t ?c ?x with _ => _ end] => pairb (continue_to_matching_quote t c) x
-    | |- context [haml_identifier ?t ?x] => pairb (haml_identifier t) x
-    | |- context [errorf ?m ?x] => pairb (errorf m) x
-    end
-  | match goal with
-    | |- context [if ?c then _ else _] => destruct c
-    | |- context [match ?x with _ => _ end] => destruct x
-    end ];
-  cbn [snd fst]; bs.
-
+(** * every state function keeps the cursor in range (the generic principle of LexCursorInv) *)
 Theorem step_base st l : Base l -> Base (snd (step st l)).
 Proof.
-  intro H. destruct st; unfold step; cbv zeta.
-  all: safe_case.
+  exact (step_inv Base Fresh next_spec backup_spec drop_width_spec peek_ahead_base ignore_base with_indent_base emit_base errorf_base st l).
 Qed.
